@@ -1,0 +1,112 @@
+//go:build verif
+
+package echo
+
+import (
+	"fmt"
+	"sort"
+	"strings"
+)
+
+// VerifDumpRouter returns canonical dump of router tree (verification hook, build tag verif).
+func VerifDumpRouter(r *Router) string {
+	var sb strings.Builder
+	var walk func(n *node)
+	walk = func(n *node) {
+		if n == nil {
+			sb.WriteString("-")
+			return
+		}
+		sb.WriteString("(")
+		sb.WriteString([]string{"S", "P", "A"}[n.kind])
+		sb.WriteString(" ")
+		sb.WriteString(strings.ToUpper(hexs(n.prefix)))
+		sb.WriteString(" [")
+		var ms []string
+		add := func(name string, rm *routeMethod) {
+			if rm != nil {
+				ms = append(ms, name)
+			}
+		}
+		add("CONNECT", n.methods.connect)
+		add("DELETE", n.methods.delete)
+		add("GET", n.methods.get)
+		add("HEAD", n.methods.head)
+		add("OPTIONS", n.methods.options)
+		add("PATCH", n.methods.patch)
+		add("POST", n.methods.post)
+		add("PROPFIND", n.methods.propfind)
+		add("PUT", n.methods.put)
+		add("TRACE", n.methods.trace)
+		add("REPORT", n.methods.report)
+		for k := range n.methods.anyOther {
+			ms = append(ms, k)
+		}
+		sort.Strings(ms)
+		sb.WriteString(strings.Join(ms, ","))
+		sb.WriteString("] ")
+		if n.notFoundHandler != nil {
+			sb.WriteString("NF ")
+		} else {
+			sb.WriteString("nf ")
+		}
+		// flags
+		if n.isLeaf {
+			sb.WriteString("L")
+		} else {
+			sb.WriteString("l")
+		}
+		if n.isHandler {
+			sb.WriteString("H")
+		} else {
+			sb.WriteString("h")
+		}
+		sb.WriteString(" {")
+		// static children sorted by label for canonical compare
+		sc := append(children{}, n.staticChildren...)
+		sort.Slice(sc, func(i, j int) bool { return sc[i].prefix < sc[j].prefix })
+		for _, c := range sc {
+			if c.parent != n {
+				sb.WriteString("!BADPARENT!")
+			}
+			walk(c)
+		}
+		sb.WriteString("} ")
+		walk(n.paramChild)
+		sb.WriteString(" ")
+		walk(n.anyChild)
+		sb.WriteString(")")
+	}
+	walk(r.tree)
+	return sb.String()
+}
+
+func hexs(s string) string {
+	const d = "0123456789abcdef"
+	b := make([]byte, 0, 2*len(s))
+	for i := 0; i < len(s); i++ {
+		b = append(b, d[s[i]>>4], d[s[i]&15])
+	}
+	return string(b)
+}
+
+// VerifContextID returns an identity of the context object (to observe pool reuse).
+func VerifContextID(c Context) string {
+	return fmt.Sprintf("%p", c)
+}
+
+// VerifPValuesLen returns the length of the parameter value array of the context.
+func VerifPValuesLen(c Context) int {
+	if cc, ok := c.(*context); ok {
+		return len(cc.pvalues)
+	}
+	return -1
+}
+
+// VerifMaxParam returns the current maxParam of the Echo instance.
+func VerifMaxParam(e *Echo) int {
+	return *e.maxParam
+}
+
+// VerifSanitizeURI exposes sanitizeURI of package echo (echo_fs.go).
+func VerifSanitizeURI(uri string) string { return sanitizeURI(uri) }
